@@ -440,6 +440,8 @@ def plan_for(prop, tier, seed, replay_file=None):
                 gen_job('find_p5', 'remove', 5, depth=1, size='v', style=(seed + 1) % 5, reads=['finddata'], **big),
                 # several data items under one key, removed one by one in every order
                 gen_job('kdm_p19', 'remove', 19, depth=2 if tier == 'quick' else 3, style=(seed + 2) % 5, sample_mod=1 if tier == 'quick' else 3, **big),
+                # equal numbers / booleans / nulls under different explicit ids
+                gen_job('find_p22', 'remove', 22, depth=1, style=(seed + 3) % 5, reads=['finddata'], MaxAnns=10, MaxRes=3, MaxData=12, MaxSets=2, MaxKeys=4),
                 gen_job('kdm_find_p19', 'remove', 19, depth=2, style=(seed + 2) % 5, reads=['finddata'], **big),
                 gen_job('loose_w1', 'core', 1, depth=2, size='w', style=(seed + 3) % 5, sample_mod=8 if tier == 'quick' else 1, **big),
                 gen_job('find_w1', 'core', 1, depth=1, size='w', style=(seed + 4) % 5, reads=['finddata'], **big),
